@@ -9,7 +9,7 @@ ROOT = os.path.dirname(os.path.dirname(os.path.realpath(__file__)))
 # id -> (technique, level text, level note, design ref)
 TABLE = {
     "C01": (
-        "generated grammars (four families: random, shared left corners, left-corner cycles, CNF-shaped; up to 4 terminals) x exhaustive short contexts x both back-ends, queried shortest-first and again longest-first on the same object; oracle = Bar-Hillel product with the prefix DFA in the Boolean model (viability decided exactly); metamorphic rule order / renaming / hash seed",
+        "generated grammars (four families: random, shared left corners, left-corner cycles, CNF-shaped; up to 4 terminals; terminals also ints, tuples, booleans; tiny positive float weights) x exhaustive short contexts x both back-ends, queried shortest-first and again longest-first on the same object; oracle = Bar-Hillel product with the prefix DFA in the Boolean model (viability decided exactly); metamorphic rule order / renaming / hash seed",
         "Both directions of the mask (nothing missing, nothing extra) on 2400 (quick) small grammars incl. empty language, nullable/unary cycles, indirect left recursion, both back-ends, two query orders, 16 hash seeds. Bounded exploration, not a proof.",
         "Trusted: vf.cfgref (self-tested against brute-force derivation enumeration and closed forms). Bounds: <=4 nonterminals (5 thorough), <=8 rules (10), <=4 terminals, contexts <=3 (2 with 4 terminals; 4 thorough).",
     ),
@@ -29,18 +29,18 @@ TABLE = {
         "Trusted: vf.cfgref; Fractions for long contexts. rtol 1e-8 (1e-6 long).",
     ),
     "C05": (
-        "stateful (Hypothesis RuleBasedStateMachine): histories of p_next / call / chart / clear_cache / grammar transformations / cold long contexts / one sweep over all short contexts (incl. complete sentences ending in EOS) in a drawn order, on one object; model = fresh object per query; invariant after every step",
+        "stateful (Hypothesis RuleBasedStateMachine): histories of p_next / call / chart / clear_cache / grammar transformations / cold long contexts / one sweep over all short contexts (incl. complete sentences ending in EOS) in a drawn order / the caller's own list edited in place / the parser underneath a language model, on one object; model = fresh object per query; invariant after every step",
         "History independence and purity over ~8000 (quick) generated query histories (siblings, prefixes, repeats, clears, EOS inside contexts, cold 500+-token contexts under the default recursion limit) for 8 object kinds, on random, shared-left-corner and left-corner-cycle grammars. Exploration of histories up to 20-30 rule applications.",
         "The model is the library on a fresh object (that is the property); value correctness is C01-C04.",
     ),
     "C06": (
-        "generated grammars (four families, non-string terminals, signed weights) x every transformation/option x unfold at every site x four chains of two; oracle = reference parser on both sides (transformed grammar read as data), library evaluator T(cfg)(xs) as a secondary observation; exact regimes incl. free polynomial semiring",
+        "generated grammars (four families, non-string terminals, signed weights) x every transformation/option x unfold at every site x four chains of two (incl. a renaming onto existing names); oracle = reference parser on both sides (transformed grammar read as data), library evaluator T(cfg)(xs) as a secondary observation; exact regimes incl. free polynomial semiring",
         "Weighted-language preservation of all 17 transformation variants on all strings up to length 3; polynomial identity in the free semiring. Exploration.",
         "Trusted: vf.cfgref.Inside on both sides.",
     ),
     "C07": (
         "generated grammars (raw, with useless symbols, unproductive start, nullable and unary cycles) x transformations; validity predicates on the output written in the harness (own SCC / reachability / generating sets)",
-        "Structural postconditions of CNF, nullary/unary(-cycle) removal, binarisation, separations and trim on every generated input. Exploration.",
+        "Structural postconditions of CNF, nullary/unary(-cycle) removal, binarisation, separations and trim on every generated input (non-string terminals, signed weights), trim of a re-weighted copy (map_values), has_unary_cycle. Exploration.",
         "Predicates are harness code; 'useful' = reachable and generating in the result.",
     ),
     "C08": (
@@ -50,17 +50,17 @@ TABLE = {
     ),
     "C09": (
         "generated grammar x transducer / acceptor pairs; oracle = Bar-Hillel matrix equations against the epsilon-free cross-section of the transducer; composed grammar read as data and reference-evaluated",
-        "Relational composition in both argument orders, acceptor product, string intersection total, length truncation, for machines with epsilon on either tape, eps:eps, cycles, dead states. Exploration.",
+        "Relational composition in both argument orders, acceptor product, string intersection total, length truncation, for machines with epsilon on either tape, eps:eps, cycles, dead states, now and then 8-9 states. Exploration.",
         "Trusted: vf.cfgref.compose_total, vf.autoref.cross_section (self-tested vs brute force).",
     ),
     "C10": (
         "generated transducer pairs; oracle = Hadamard product of the two epsilon-free cross-sections (bijection with matching path pairs); composed machine read as data and evaluated by the reference lattice recursion",
-        "Composition in both operand orders on the same two objects (both association branches), before or after the objects were evaluated; evaluation, cross-sections, transpose, projections, from_string / diag / from_pairs against relational semantics. Exploration.",
+        "Composition in both operand orders on the same two objects (both association branches), before or after the objects were evaluated; evaluation, cross-sections, transpose, projections, from_string / diag / from_pairs against relational semantics; constructor results extended by the caller must not leak; both construction APIs. Exploration.",
         "Trusted: vf.autoref.rel / compose_ref (self-tested vs path enumeration).",
     ),
     "C11": (
         "generated automata x exhaustive short strings; oracle = alpha E* M_x1 E* ... beta as dense matrices over exact model semirings; acyclic cases also brute-force path enumeration",
-        "String weights, epsilon removal (read as data) and total weight against matrix path sums incl. epsilon cycles; symbols as strings, ints incl. 0, tuples; signed weights; both construction APIs (add_* / set_*). Exploration.",
+        "String weights, epsilon removal (read as data) and total weight against matrix path sums incl. epsilon cycles; symbols as strings, ints incl. 0, tuples; signed weights; both construction APIs (add_* / set_*); up to 6 states and strings up to length 5; derived machines extended and then queried. Exploration.",
         "Trusted: vf.autoref (Gaussian elimination over Q / power sums).",
     ),
     "C12": (
@@ -80,17 +80,17 @@ TABLE = {
     ),
     "C15": (
         "generated weighted digraphs; oracle = Gauss-Jordan (I-A)^-1 over Q / power sums; harness-computed SCCs and edge order",
-        "closure_scc_based, closure_reference, closure, solve_left/right, blocks, buckets on graphs with nested cycles, several components, isolated nodes, signed weights with cancelling parallel edges. Exploration, exact comparisons.",
+        "closure_scc_based, closure_reference, closure, solve_left/right, blocks, buckets on graphs with nested cycles, several components, isolated nodes, components of 8-10 nodes, signed weights with cancelling parallel edges. Exploration, exact comparisons.",
         "Row sums <= 3/4 in Q.",
     ),
     "C16": (
         "generated value triples per shipped semiring (exact scores where possible, constants and fresh copies); oracle = the semiring laws",
-        "All laws incl. star on thousands of triples per type; Boolean exhaustively covered. Exploration.",
+        "All laws incl. star on thousands of triples per type (Log scores hundreds of nats apart, star operands close to divergence with the closed form as a second oracle, large integer scores); Boolean exhaustively covered. Exploration.",
         "Float tolerance rel 1e-9 / abs 1e-12.",
     ),
     "C17": (
         "generated automata over 1-4-byte alphabets with colliding state names, merged conversions, multi-character-terminal grammars; oracle = matrix path sums + UTF-8 decoding; results read as data",
-        "to_cfg left/right, to_bytes, to_bytes().to_cfg, CFG.to_bytes, merged byte grammars on encodings, truncations and byte mutations; alphabets include NUL (byte value 0). Exploration.",
+        "to_cfg left/right, to_bytes, to_bytes().to_cfg, CFG.to_bytes, merged byte grammars on encodings, truncations and byte mutations; alphabets include NUL (byte value 0) and multi-character tokens (segmentation reference). Exploration.",
         "Caller-chosen state names are disjoint across merged automata (as lark_interface guarantees).",
     ),
     "C18": (
@@ -100,12 +100,12 @@ TABLE = {
     ),
     "C19": (
         "generated Lark grammars printed from a harness AST x candidate texts / byte strings; oracle = reference matcher implementing the substitution semantics with Python re",
-        "Acceptance equality (accepted and rejected strings) for char_cfg and byte_cfg, both recursions, %ignore, case-insensitive literals, multi-byte terminals; N/V disjointness. Exploration.",
+        "Acceptance equality (accepted and rejected strings) for char_cfg and byte_cfg, both recursions, %ignore, case-insensitive literals, multi-byte terminals, near-colliding terminal names, duplicate patterns; N/V disjointness. Exploration.",
         "Grammars Lark rejects are discarded; acceptance only.",
     ),
     "C20": (
         "generated convergent grammars (dominated, suite-style and PCFG-style weights whose per-head sums are exactly one); oracle = reference total / inside on the input and on the returned grammars read as data",
-        "Per-head sums, total one, proportional string weights, EOS wrapping on all strings over V+EOS up to length 4. Exploration.",
+        "Per-head sums, total one, proportional string weights, EOS wrapping (default and caller-chosen end symbol) on all strings over V+EOS up to length 4. Exploration.",
         "rtol 1e-8.",
     ),
 }
